@@ -80,7 +80,7 @@ package server
 //@ pure unbound(s *Stmt) bool = len(s.args) == s.paramCount && forall(i, 0, len(s.args), s.args[i] == nil)
 
 //@ property C16: (*Stmt).ResetParams, (*SessionExecutor).handleStmtExecute, (*SessionExecutor).handleStmtReset, (*SessionExecutor).handleStmtSendLongData,
-//@   (*Stmt).SetParamTypes, (*Stmt).GetParamTypes, (*SessionExecutor).bindStmtArgs, (*SessionExecutor).handleStmtClose
+//@   (*Stmt).SetParamTypes, (*Stmt).GetParamTypes, (*SessionExecutor).bindStmtArgs, (*SessionExecutor).handleStmtClose, (*SessionExecutor).handleStmtPrepare, (*Namespace).GetName
 
 //@ func (*Stmt).ResetParams
 //@   requires s != nil && 0 <= s.paramCount
@@ -126,6 +126,24 @@ package server
 //@   requires se != nil && stmtWF(se, data)
 //@   ensures case unknown: len(data) >= 4 && !old(has(se.stmts, le32(data))) ==> ret0 != nil
 //@   ensures case cleared: ret0 == nil ==> old(has(se.stmts, le32(data))) && unbound(old(se.stmts[le32(data)]))
+
+// COM_STMT_PREPARE registers a new statement under the session's next id, with every parameter unbound and the parameter count
+// CalcParams reports; every other registered statement is untouched; a statement that cannot be prepared registers nothing
+//@ trusted strings.TrimRight
+//@   params s, cutset
+//@   pure-call
+//@   ensures slen(ret0) <= slen(s)
+//@ func (*Namespace).GetName
+//@   requires n != nil
+//@   assigns \nothing
+//@   ensures ret0 == n.name
+//@ func (*SessionExecutor).handleStmtPrepare
+//@   requires se != nil && se.stmts != nil && slen(sql) < 1<<30 && se.contextNamespace != nil && se.stmtID < 4294967295
+//@   assigns se.stmtID, mapof(se.stmts)
+//@   ensures case registered: ret1 == nil ==> ret0 != nil && fresh(ret0) && ret0.id == old(se.stmtID) && has(se.stmts, ret0.id) && se.stmts[ret0.id] == ret0 && unbound(ret0) && 0 <= ret0.paramCount && ret0.columnCount == 0
+//@   ensures case nextId:     ret1 == nil ==> se.stmtID == old(se.stmtID) + 1
+//@   ensures case others:     forall(k uint32, (ret1 != nil || k != old(se.stmtID)) ==> has(se.stmts, k) == old(has(se.stmts, k)) && se.stmts[k] == old(se.stmts[k]))
+//@   ensures case failed:     ret1 != nil ==> ret0 == nil && se.stmtID == old(se.stmtID)
 
 // COM_STMT_CLOSE removes exactly the named statement: every other statement stays registered with the same object
 //@ func (*SessionExecutor).handleStmtClose
@@ -658,13 +676,16 @@ package server
 //@ property C14: CalcParams
 //@ func CalcParams
 //@   requires slen(sql) < 1<<30
+//@   assigns \nothing
 //@   loop 0 invariant case state:   (quoteChar == "" || quoteChar == runestr(39) || quoteChar == runestr(34)) && (quoteChar == "" <==> qs(sql, rangeindex + 1) == 0) && (quoteChar == runestr(39) <==> qs(sql, rangeindex + 1) == 1) && (quoteChar == runestr(34) <==> qs(sql, rangeindex + 1) == 2)
+//@   loop 0 invariant case nonneg uses: 0 <= count
 //@   loop 0 invariant case count:   count == np(sql, rangeindex + 1) && len(offsets) == count && (offsets == nil || fresh(offsets))
 //@   loop 0 invariant case offsets: forall(k, 0, len(offsets), 0 <= offsets[k] && offsets[k] <= rangeindex && sat(sql, offsets[k]) == 63 && qs(sql, offsets[k]) == 0 && np(sql, offsets[k]) == k)
 //@   loop 0 invariant case items:   0 <= subBeginIndex && subBeginIndex <= rangeindex + 1 && (sqlItems == nil || fresh(sqlItems))
 //@   ensures case count:    err == nil ==> count == np(sql, slen(sql)) && len(offsets) == count && qs(sql, slen(sql)) == 0
 //@   ensures case offsets:  err == nil ==> forall(k, 0, len(offsets), 0 <= offsets[k] && offsets[k] < slen(sql) && sat(sql, offsets[k]) == 63 && qs(sql, offsets[k]) == 0 && np(sql, offsets[k]) == k)
 //@   ensures case rejected: err != nil ==> qs(sql, slen(sql)) != 0
+//@   ensures case nonneg uses nonneg: 0 <= count
 
 // ---------------------------------------------------------------- C15 bound values become literals that denote them
 // escapeSQL writes every byte of the value in order, preceded by one backslash exactly when the byte is a backslash or a single
